@@ -107,6 +107,17 @@ static const char *last_callback = "none";
 static __thread const char *cb_stack[8]; /* application callbacks this thread is inside of (nesting: callback -> API -> callback) */
 static __thread int cb_depth;
 static __thread const char *last_lkd; /* the monitored (_lkd / dispatch) library function this thread entered last */
+static NOINSTR void dump_threads(char *b, size_t n);
+#ifdef C13_RACE
+#include "c13_race.h" /* happens-before race detection on every explored schedule (stage c13race) */
+#else
+#define rc_acquire(m, g) ((void)0)
+#define rc_release(m, g) ((void)0)
+#define rc_arm() ((void)0)
+#define rc_exec_init() ((void)0)
+#define rc_global_init() ((void)0)
+#define rc_thread_stack(t) ((void)0)
+#endif
 
 /* called with smu held by the running thread; picks the next thread and hands over.
  * me_enabled: 0 = the caller cannot continue, 1 = it can (switching away is a preemption, cost 1),
@@ -186,8 +197,11 @@ is_global(pthread_mutex_t *m) {
 NOINSTR int
 pthread_mutex_lock(pthread_mutex_t *m) {
   resolve();
-  if (!sched_on || my_id < 0 || !is_global(m))
-    return real_lock(m);
+  if (!sched_on || my_id < 0 || !is_global(m)) {
+    int r = real_lock(m);
+    rc_acquire(m, 0);
+    return r;
+  }
   real_lock(&smu);
   if (lock_owner == my_id) {
     /* non-recursive mutex locked again by its owner: this call never returns, the thread hangs holding the global lock */
@@ -209,14 +223,19 @@ pthread_mutex_lock(pthread_mutex_t *m) {
   }
   T[my_id].state = T_RUN;
   lock_owner = my_id;
+  rc_acquire(m, 1);
   real_unlock(&smu);
   return real_lock(m);
 }
 NOINSTR int
 pthread_mutex_trylock(pthread_mutex_t *m) {
   resolve();
-  if (!sched_on || my_id < 0 || !is_global(m))
-    return real_trylock(m);
+  if (!sched_on || my_id < 0 || !is_global(m)) {
+    int r = real_trylock(m);
+    if (r == 0)
+      rc_acquire(m, 0);
+    return r;
+  }
   real_lock(&smu);
   schedule("trylock", 1);
   if (lock_owner != -1) {
@@ -224,14 +243,18 @@ pthread_mutex_trylock(pthread_mutex_t *m) {
     return EBUSY;
   }
   lock_owner = my_id;
+  rc_acquire(m, 1);
   real_unlock(&smu);
   return real_trylock(m);
 }
 NOINSTR int
 pthread_mutex_unlock(pthread_mutex_t *m) {
   resolve();
-  if (!sched_on || my_id < 0 || !is_global(m))
+  if (!sched_on || my_id < 0 || !is_global(m)) {
+    rc_release(m, 0);
     return real_unlock(m);
+  }
+  rc_release(m, 1);
   int r = real_unlock(m);
   real_lock(&smu);
   if (lock_owner != my_id) {
@@ -1023,6 +1046,7 @@ static void *
 io_thread(void *arg) {
   (void)arg;
   my_id = 0;
+  rc_thread_stack(0);
   real_lock(&smu);
   while (cur != my_id)
     pthread_cond_wait(&scv, &smu);
@@ -1033,6 +1057,7 @@ io_thread(void *arg) {
   for (int t = 1; t < nthreads; t++)
     T[t].state = T_RUN;
   armed = 1;
+  rc_arm();
   real_unlock(&smu);
   int iter = 0;
   while (iter++ < 80) {
@@ -1056,6 +1081,7 @@ static void *
 worker_thread(void *arg) {
   int w = (int)(intptr_t)arg;
   my_id = w;
+  rc_thread_stack(w);
   real_lock(&smu);
   while (cur != my_id)
     pthread_cond_wait(&scv, &smu);
@@ -1091,6 +1117,7 @@ static void
 run(void *arg) {
   C = arg;
   resolve();
+  rc_exec_init();
   ns_init();
   ns_epoll_wait_hook = epoll_hook;
   workers_done = setup_done = workers_done_io = 0;
@@ -1125,6 +1152,12 @@ run(void *arg) {
     pthread_join(T[t].th, NULL);
   sched_on = 0;
   armed = 0;
+#ifdef C13_RACE
+  rc_on = 0;
+  vx_trace("race detector: %llu library accesses (%llu bytes) checked on %u shadow pages", rc_accesses, rc_bytes, rc_pages);
+  if (rc_accesses == 0)
+    vx_fail("harness:race-detector-saw-nothing", "no instrumented access was seen: the library objects are not compiled with the access hooks");
+#endif
   vx_observe("end: requests=%d responses=%d nacks=%d events=%d handler_calls=%d preemptions=%d", req_sent, resp_seen, nack_seen, ev_seen,
              handler_calls, preemptions);
   if (C->flags & F_CBX)
@@ -1220,6 +1253,7 @@ main(int argc, char **argv) {
   vx_main_init(argc, argv, "C13");
   int T_ = vx_is_thorough();
   load_symbols();
+  rc_global_init();
   vx_ev_int("lkd_functions_monitored", nsyms);
   vx_ev_int("threadsafe_is_supported", coap_threadsafe_is_supported());
 #if COAP_THREAD_SAFE
